@@ -58,18 +58,27 @@ class TieredInterval:
     def __lt__(self, other: TieredInterval):
         assert len(self) == len(other)
         assert self.pre_length == other.pre_length
+        # If a tier is added to by one interval and set by the other and
+        # the values are equal, the setting interval is the smaller one
+        # for all times where that tier is not 0 (and they are still
+        # tied where it is 0). Later tiers must not contradict this.
+        smaller = None
         for i, (s, o) in enumerate(zip(self.tiers, other.tiers)):
             s_add_o_ext = other.cutoff <= i < self.cutoff
             o_add_s_ext = self.cutoff <= i < other.cutoff
             if s < o:
-                if s_add_o_ext:
+                if s_add_o_ext or smaller is other:
                     assert False, f"{self} and {other} are incomparable"
                 return True
             if o < s:
-                if o_add_s_ext:
+                if o_add_s_ext or smaller is self:
                     assert False, f"{self} and {other} are incomparable"
                 return False
-        return False
+            if s_add_o_ext:
+                smaller = other
+            elif o_add_s_ext:
+                smaller = self
+        return smaller is self
 
     def __repr__(self):
         return (
